@@ -1,4 +1,4 @@
-import AnySyncModel.Ldiff.Arith
+import AnySyncModel.Ldiff.Shape
 /-!
 # C07 — the range-hash diff reports exactly the differing ids
 
@@ -28,6 +28,9 @@ def C07_diff_exact_full : Prop :=
       (greater = false → c.changed.Perm (specChanged (pairs a) (pairs b)) ∧ c.theirChanged = []) ∧
       (greater = true → c.changed.Perm (specOurChanged (pairs a) (pairs b)) ∧
         c.theirChanged.Perm (specTheirChanged (pairs a) (pairs b)))
+
+/-- the range arithmetic of the model is the arithmetic regenerated from `hashrange.go` -/
+theorem shape_ok : type_of% ldiffShape_ok := ldiffShape_ok
 
 /-- the wire adapters do not change an answer whose count is below 2^32 -/
 theorem wire_id {D} (r : RangeRes D) (h : r.count < 4294967296) : r.wire = r := by
